@@ -40,13 +40,20 @@ def disposeOrder (stages : Table (List SysTag)) (tl : List SysTag) (bs : List (S
 
 The harness's controller data types (`gen.rs::CTL`): 0 `()`, 1 `Read<R0>`, 2 `Write<R1>`,
 3 `(Read<R2>, Write<R0>)` — all with `DefaultProvider` —, 4 `Option<Read<R3>>`,
-5 `WriteExpect<R4>` (`PanicHandler`). `DefaultProvider::setup` is `entry().or_insert_with(default)`:
+5 `WriteExpect<R4>` (`PanicHandler`), 6 `(Write<R4>, Write<R5>)`, 7 `(Write<R5>, Write<R4>)`,
+8 `(Read<R3>, Read<R2>, Write<R1>)`; 9 and 10 are the library's `MultiDispatcher` around a
+`MultiDispatchController` whose `SystemData` is `()` resp. `(Write<R5>, Read<R3>)`
+(`BatchSystemData = C::SystemData`, batch.rs l.206). `DefaultProvider::setup` is `entry().or_insert_with(default)`:
 it inserts the default (0) only into a vacant slot. Harness systems' own `setup` creates nothing. -/
 
 def ctlCreates : Nat → List ResId
   | 1 => [⟨0, 0⟩]
   | 2 => [⟨1, 0⟩]
   | 3 => [⟨2, 0⟩, ⟨0, 0⟩]
+  | 6 => [⟨4, 0⟩, ⟨5, 0⟩]
+  | 7 => [⟨5, 0⟩, ⟨4, 0⟩]
+  | 8 => [⟨3, 0⟩, ⟨2, 0⟩, ⟨1, 0⟩]
+  | 10 => [⟨5, 0⟩, ⟨3, 0⟩]
   | _ => []
 
 abbrev LWorld := List (ResId × Nat)
